@@ -490,13 +490,48 @@ func (p *pat) match1(t *Term, b Binds) bool {
 	if len(t.Args) != n {
 		return false
 	}
-	for i := range p.args {
-		if !p.args[i].match(t.Args[i], b) {
-			return false
+	try := func(order []int) bool {
+		nb := Binds{}
+		for k, v := range b {
+			nb[k] = v
+		}
+		for i := range p.args {
+			if !p.args[i].match(t.Args[order[i]], nb) {
+				return false
+			}
+		}
+		for k, v := range nb {
+			b[k] = v
+		}
+		return true
+	}
+	if n == 2 && t.Op == "bin" && commutative[t.Name] && !isStringTerm(t) && !isStringTerm(t.Args[0]) {
+		// sums and products are kept sorted by the canonicaliser; a pattern with wildcards cannot know the order
+		return try([]int{0, 1}) || try([]int{1, 0})
+	}
+	order := make([]int, n)
+	for i := range order {
+		order[i] = i
+	}
+	return try(order)
+}
+
+func isStringTerm(t *Term) bool {
+	if t == nil {
+		return false
+	}
+	if t.Op == "const" && strings.HasPrefix(t.Name, "\"") {
+		return true
+	}
+	if tt := termType(t); tt != nil {
+		if b, ok := tt.Underlying().(*types.Basic); ok && b.Info()&types.IsString != 0 {
+			return true
 		}
 	}
-	return true
+	return false
 }
+
+var commutative = map[string]bool{"+": true, "*": true, "&": true, "|": true, "^": true, "==": true, "!=": true}
 
 var patCache = map[string]*pat{}
 
